@@ -127,6 +127,27 @@ def run(check, repo: Repo) -> None:
         check.violated("C02-R3", f"_set_patch_indices: axis clash `{unparse(n)[:60]}`", m + " — probes are gathered from the wrong object pixels on non-square grids", dmod.line(n), definite=True)
     if not k.clashes:
         check.holds("C02-R3", "_set_patch_indices: offsets, positions, wraps and strides stay on their own axis", where=dmod.line(spi))
+    # wrapping is per axis: a row index modulo the number of rows, a column index modulo the number of columns.  Reducing the FLAT index modulo rows·columns wraps
+    # the rows only — a ROI column that leaves the object on the left / right lands in the neighbouring row instead of wrapping inside its own row.
+    def _is_area(e_):
+        if isinstance(e_, ast.BinOp) and isinstance(e_.op, ast.Mult):
+            return all(isinstance(x, (ast.Name, ast.Subscript, ast.Attribute)) for x in (e_.left, e_.right))
+        if isinstance(e_, ast.Call) and (call_name(e_) or "").split(".")[-1] in ("numel", "prod", "nelement"):
+            return True
+        if isinstance(e_, ast.Name):
+            ds_ = [d for d in definitions(spi, e_.id) if isinstance(d, ast.AST)]
+            return len(ds_) == 1 and _is_area(ds_[0])
+        return False
+    for n_ in ast.walk(spi):
+        area = None
+        if isinstance(n_, ast.BinOp) and isinstance(n_.op, ast.Mod) and _is_area(n_.right):
+            area = n_.right
+        elif isinstance(n_, ast.Call) and (call_name(n_) or "").split(".")[-1] in ("remainder", "fmod", "mod") and len(n_.args) == 2 and _is_area(n_.args[1]):
+            area = n_.args[1]
+        if area is not None:
+            check.violated("C02-R3", "_set_patch_indices: indices wrap per axis (row mod rows, column mod columns)",
+                           f"`{unparse(n_)[:70]}` reduces a flat index modulo the object AREA `{unparse(area)}`: only the rows wrap — a patch that crosses the left / right edge "
+                           f"picks up pixels of the neighbouring row, so edge probes gather the wrong object patches", dmod.line(n_), definite=True)
     pic = k.env.get("patch_indices_chunk")
     flat_ok = isinstance(pic, Flat)
     if pic is None:
@@ -271,3 +292,4 @@ MANIFEST = {
     "technique": "centring typestate + kinded-axis abstract interpretation + sibling agreement of conventions (AST)",
 }
 MANIFEST["text"] += " Also: per-call setup (targets for this call's loss type, propagator arrays) lies on every path to the epoch loop (R8, must-pass-through); borrowed instances: the propagator kernel's unit modulus / linearity in the slice thickness / per-axis frequency grids (R9 = C16's rules) and the mixed-state orthogonalisation's index alignment (R10 = C10's rules)."
+MANIFEST["text"] += " R3 also: patch indices wrap per axis — a flat index reduced modulo the object area (rows·columns) wraps rows only and is reported."
